@@ -38,6 +38,7 @@ RULE += ' Round 6: foreign tables with an unnamed first column; get_waveforms on
 RULE += ' Round 7: ALF datasets with seconds only; get_waveforms for all stored spikes and all channels in one request.'
 RULE += " Round 8: saved field names starting with 'info'; recordings of three raw files whose middle file is shorter than the waveform window."
 RULE += ' Round 9: a foreign two-column cluster_quality.csv next to the saved cluster_quality.tsv; a tab-separated .csv; an unterminated quote in front of more than 128 KiB of rows.'
+RULE += ' Round 10: recordings shorter than one waveform window.'
 EXHAUSTIVE = {'quick': True, 'thorough': True}
 EXHAUSTIVE_SCOPE = {'quick': 'histories of length <= 2 over the 9-operation reduced alphabet; random part sampled',
                     'thorough': 'histories of length <= 3 over the reduced alphabet; random part sampled'}
